@@ -203,6 +203,17 @@ template<typename F> inline void canon_variants(F f, Out& o) {
   { typename F::sk s = f.make(); f.upr(s, "abc", 3); o.R(fnv64(f.img(s))); }
   // 32: a fixed small mixed stream (reference image digest)
   { typename F::sk s = f.make(); for (int64_t i = 0; i < 40; ++i) f.up(s, (int64_t)(i * 1000003 - 17)); f.ups(s, "datasketches"); f.ups(s, "x"); f.up(s, (uint64_t)1 << 63); o.R(fnv64(f.img(s))); }
+  // 33..163: one item of every length 0..130 as raw bytes, 164..294: the same bytes as a std::string (one sketch per length): every
+  // MurmurHash3 tail length 0..15 after 0..8 blocks and every XXHash64 stripe / tail combination
+  for (int as_string = 0; as_string < 2; ++as_string) {
+    for (size_t len = 0; len <= 130; ++len) {
+      std::string item(len, '\0');
+      for (size_t j = 0; j < len; ++j) item[j] = (char)(uint8_t)(j * 37 + len * 11 + 1);
+      typename F::sk s = f.make();
+      if (as_string) f.ups(s, item); else f.upr(s, item.data(), len);
+      o.R(fnv64(f.img(s)));
+    }
+  }
 }
 
 #if SERDE_G(1)
